@@ -48,6 +48,12 @@ def cells(tier):
         for L in (1, 2):
             for assign in itertools.product((1, 2), repeat=5):
                 out.append(dict(kind=kind, L=L, nq=2, fail=None, arrival="before", assign=list(assign)))
+        # a broker fault outside the actor (the k-th ack raises): the slot of that task has to come back
+        # (RabbitMQ: the delivery whose ack failed stays unacknowledged and keeps its place in the
+        # consumer's prefetch window of L, so at least a window of two is needed to go on)
+        for L in (1, 2) if kind != "amqp" else (2, 3):
+            for k in (0, 1, 2):
+                out.append(dict(kind=kind, L=L, nq=1, fail=None, arrival="before", assign=[1, 1, 1, 1], fault=["ack", k]))
     return out
 
 
@@ -127,6 +133,7 @@ def execute(cell, late_at=None, cancel_at=None):
             x.at_iteration(cancel_at, server_cancel)
 
     res = run_worker(kind, build=build, messages=msgs, queues=queues, stop_at=horizon, during=during, inject=inject,
+                     fail_calls=[cell["fault"]] if cell.get("fault") else None,
                      worker_kw=dict(tasks_limit=cell["L"], graceful_shutdown_time=0.2), max_iters=1_000_000, settle=0.3)
     viol = []
     if res.status != "ok":
